@@ -135,6 +135,8 @@ def run(chk):
             chk.violation(rid, b.file, OP_RESOLVE, "opcode without dispatch: %s" % sorted(missing)[0],
                           "Op::resolve has no VrlValueArithmetic call for opcode(s) %s" % sorted(missing), detail=d)
 
+    float_equality_exact(chk, "R10d")
+
     # ---- R10c integer exactness
     rid = "R10c"
     chk.rule(rid, "eq_lossy under (Integer, Integer): reaches an i64 Eq, never an IntToFloat cast (incl. closures handed out on that path)", floor=2)
@@ -175,3 +177,30 @@ def run(chk):
                       "eq_lossy on two integers converts them to f64 (%s): integers above 2^53 that differ compare equal"
                       % (casts and "cast at line %s" % casts[0]["line"] or closure_casts and "closure %s" % closure_casts[0][0] or conv_calls[0]["callee"]),
                       detail=d)
+
+
+def float_equality_exact(chk, rid):
+    """R10d: in eq_lossy (and the closures it builds) floats are compared with one exact f64 `Eq`, nothing else"""
+    facts = chk.facts
+    chk.rule(rid, "eq_lossy compares floats with a single exact f64 Eq (no arithmetic, ordering or helper call on the operands)", floor=2)
+    name = arith.method("eq_lossy")
+    for bn in facts.family(name):
+        b = facts.body(bn)
+        fops = [(s["rv"]["op"], s.get("ln")) for bi, si, s in b.iter_stmts() if s["rv"]["k"] == "binop" and s["rv"]["tya"] == "f64"]
+        local_calls = [b.callee(t) for bb, t in b.calls() if t.get("rlocal") and not b.callee(t).endswith("try_into_f64")
+                       and "::{closure" not in b.callee(t)]
+        float_calls = [b.callee(t) for bb, t in b.calls() if re.search(r"f64>::|::<impl f64>::|std::f64::", b.callee(t))]
+        if bn != name and not fops and not local_calls and not float_calls:
+            d = {"body": bn, "f64_ops": fops}
+            chk.instance(rid, d, ok=False)
+            chk.violation(rid, b.file, bn, "closure without f64 Eq", "a comparison closure of eq_lossy no longer performs an exact f64 equality", detail=d)
+            continue
+        d = {"body": bn, "f64_ops": fops, "local_helper_calls": local_calls, "f64_method_calls": float_calls}
+        bad = [o for o in fops if o[0] != "Eq"] or local_calls or float_calls
+        if bn == name and not fops and not bad:
+            continue
+        chk.instance(rid, d, ok=not bad)
+        if bad:
+            chk.violation(rid, b.file, bn, "inexact float equality",
+                          "eq_lossy compares floats through %s instead of one exact f64 `==`: equality stops being consistent with `<`/`>` "
+                          "(e.g. distinct floats closer than an epsilon, or equal infinities)" % (bad[0] if isinstance(bad, list) else bad), detail=d)
